@@ -138,6 +138,11 @@ def check_aggregate(case):
     np.random.seed(case["seed"])
     model.fit(X, y, w) if w is not None else model.fit(X, y)
     Q = np.array(case["Q"], dtype=np.float64).reshape(-1, case["d"])
+    if case.get("qrepeat"):
+        # a large query batch (hundreds to a few thousand rows, sizes that do not divide evenly into 2 or 3 blocks): the drawn rows
+        # repeated, each repetition shifted so that all rows differ
+        reps = int(case["qrepeat"])
+        Q = np.vstack([Q + 0.25 * r for r in range(reps)])[:case.get("qrows") or None]
     qd = case.get("qdtype", "float64")
     if qd != "float64":
         # queries that are not float64 arrays (integer features, a float32 pipeline): the aggregate is still made of what each model answers
@@ -171,7 +176,7 @@ def check_aggregate(case):
             "after set_params(n_estimators=%d) without refit, predict is no longer the mean of the %d fitted models' predictions" % (
                 case.get("other_n_estimators", ne + 3), ne), facts)
     return Outcome([case["base"], "n_jobs=%s" % case["n_jobs"], "weights" if w is not None else "no-weights",
-                    "ne=1" if ne == 1 else "ne>1", "query:" + qd], ne >= 2 and len(Q) >= 2)
+                    "ne=1" if ne == 1 else "ne>1", "query:" + qd, "query-rows>=512" if len(Q) >= 512 else "query-rows<512"], ne >= 2 and len(Q) >= 2)
 
 
 @st.composite
@@ -203,8 +208,9 @@ def _agg_cases(draw, tier="quick"):
     q = draw(st.integers(1, 6))
     Q = draw(st.lists(st.lists(st.integers(-40, 40).map(lambda k: k / 4.0), min_size=d, max_size=d), min_size=q, max_size=q))
     noise = draw(st.lists(st.integers(-8, 8).map(lambda k: k / 8.0), min_size=12, max_size=12))
+    qrows = draw(st.sampled_from([0, 0, 0, 0, 513, 515, 1024, 1025, 1537, 2051]))
     return dict(n=n, d=d, alpha=alpha, n_estimators=draw(st.integers(1, 12)), other_n_estimators=draw(st.integers(1, 24)), weights=draw(st.booleans()), base=base,
-                n_jobs=draw(st.sampled_from([None, 1, 2])), seed=draw(st.integers(0, 2**31 - 1)), Q=Q, noise=noise,
+                n_jobs=draw(st.sampled_from([None, 1, 2, 3])), seed=draw(st.integers(0, 2**31 - 1)), Q=Q, noise=noise, qrows=qrows, qrepeat=(qrows // q + 1) if qrows else 0,
                 qdtype=draw(st.sampled_from(["float64", "float64", "float32", "int64", "int32"])))
 
 
